@@ -12,3 +12,5 @@ import ThriftVerif.Props.C17
 #print axioms Props.C17.constvalue_roundtrip
 #print axioms Props.C17.dump_parse_partial
 #print axioms Props.C17.dump_accepted_partial
+#print axioms Props.C17.tree_dump_exactly_once
+#print axioms Props.C17.tree_dump_break_witness
